@@ -587,7 +587,7 @@ def families(tier):
       # in-process clients of the endpoint-less client library, one per thread
       core.Family('local_clients', c04_local.check if tier == 'quick' else
                   c04_local.check_thorough, strategy=c04_local.strategy,
-                  budget={'quick': 64, 'thorough': 1200},
+                  budget={'quick': 64, 'thorough': 640},
                   shards={'quick': 16, 'thorough': 16},
                   required_classes=('local_clients',
                                     'preempted_read_modify_write',
@@ -599,7 +599,7 @@ def families(tier):
                   required_classes=('matrix_pair',
                                     'preempted_read_modify_write')),
       core.Family('interleavings', chk, strategy=strategy,
-                  budget={'quick': 64, 'thorough': 2400},
+                  budget={'quick': 64, 'thorough': 1280},
                   shards={'quick': 16, 'thorough': 16},
                   required_classes=('preempted_read_modify_write', 'ram',
                                     'sqlmem', 'calls_2', 'calls_3') + tuple(
